@@ -244,7 +244,7 @@ fn delay_us(t: Tier) -> &'static [u64] {
 	t.pick(&[2000][..], &[500, 2000, 3300][..])
 }
 const NONE: usize = usize::MAX;
-const SCENES: [&str; 8] = ["sound", "delayed-start", "clock", "tween", "delay", "filter", "eq", "delay, rate changed and changed back"];
+const SCENES: [&str; 9] = ["sound", "delayed-start", "clock", "tween", "delay", "filter", "eq", "delay, rate changed and changed back", "reverb early reflections"];
 const PLACEMENTS: [&str; 4] = ["main", "sub", "nested", "send"];
 
 #[derive(Clone, Copy, PartialEq, Eq, Hash, Debug)]
@@ -258,8 +258,10 @@ enum L {
 	NestedSp,
 	SpNested,
 	SpNestedSp,
+	/// the handles of the two parent tracks are dropped (their children keep them alive)
+	DropParents,
 }
-const LETTERS: [L; 9] = [L::Cb, L::Change, L::Top, L::Send, L::Spatial, L::Nested, L::NestedSp, L::SpNested, L::SpNestedSp];
+const LETTERS: [L; 10] = [L::Cb, L::Change, L::Top, L::Send, L::Spatial, L::Nested, L::NestedSp, L::SpNested, L::SpNestedSp, L::DropParents];
 impl L {
 	fn name(self) -> &'static str {
 		match self {
@@ -272,6 +274,7 @@ impl L {
 			L::NestedSp => "TrackHandle::add_spatial_sub_track",
 			L::SpNested => "SpatialTrackHandle::add_sub_track",
 			L::SpNestedSp => "SpatialTrackHandle::add_spatial_sub_track",
+			L::DropParents => "drop the handles of the parent tracks",
 		}
 	}
 }
@@ -300,8 +303,8 @@ fn n_b(t: Tier) -> u64 {
 	LETTERS.len() as u64 * nseqs(t) * b_ibss(t).len() as u64
 }
 fn decode_b(t: Tier, i: u64) -> (L, usize, usize) {
-	let first = LETTERS[(i % 9) as usize];
-	let i = i / 9;
+	let first = LETTERS[(i % 10) as usize];
+	let i = i / 10;
 	let seq = (i % nseqs(t)) as usize;
 	let ibs = b_ibss(t)[(i / nseqs(t)) as usize];
 	(first, seq, ibs)
@@ -329,7 +332,7 @@ impl Check for C16 {
 			)
 		} else if idx < n_a(t) + n_b(t) {
 			let (f, s, ibs) = decode_b(t, idx - n_a(t));
-			format!("histories: first letter '{}', all continuations to depth {} over 9 letters, rate sequence {:?}, internal buffer {}", f.name(), depth(t), SEQS[s], ibs)
+			format!("histories: first letter '{}', all continuations to depth {} over 10 letters, rate sequence {:?}, internal buffer {}", f.name(), depth(t), SEQS[s], ibs)
 		} else {
 			format!("E2: gameplay thread {} || audio thread change 48000->24000 Hz, callback", E2_KINDS[(idx - n_a(t) - n_b(t)) as usize].name())
 		}
@@ -344,12 +347,12 @@ impl Check for C16 {
 		}
 	}
 	fn rule(&self) -> String {
-		"A: 7 scenes x r1 x r2 x change moment {never, before callback 0..4} x internal buffer x {sound rate | delay time x placement main/sub/nested/send}; times in true seconds = sum of frames / device rate in force (the harness plays the backend and knows it; the dt handed to process is checked against it); tolerances: one device frame (+ one processing chunk where kira quantises to chunks: clock start, delayed start, tween); filter/EQ corner gain compared with the 48 kHz rendering. B: all histories <= depth over {callback, change rate, 7 track-creation paths each with probe effect + 2 ms delay carrying a probe as feedback effect}, epilogue adopts and measures every track; oracle: on every process call the rate last told == device rate in force == 1/dt, echo time == delay_time +- 1 frame. C: E2 schedules of add-track || change+callback. states = distinct (rate, per-track adopted/told) model states; non-trivial = grid runs in which the measured event was observed / histories with at least one added track whose probe was processed".into()
+		"A: 9 scenes (incl. a delay whose rate changes and changes back, and the reverb's early reflections) x r1 x r2 x change moment {never, before callback 0..4} x internal buffer x {sound rate | delay time x placement main/sub/nested/send}; times in true seconds = sum of frames / device rate in force (the harness plays the backend and knows it; the dt handed to process is checked against it); tolerances: one device frame (+ one processing chunk where kira quantises to chunks: clock start, delayed start, tween); filter/EQ corner gain compared with the 48 kHz rendering. B: all histories <= depth over {callback, change rate, drop the parents' handles, 7 track-creation paths each with probe effect + 2 ms delay carrying a probe as feedback effect}, epilogue adopts and measures every track; oracle: on every process call the rate last told == device rate in force == 1/dt, echo time == delay_time +- 1 frame. C: E2 schedules of add-track || change+callback. states = distinct (rate, per-track adopted/told) model states; non-trivial = grid runs in which the measured event was observed / histories with at least one added track whose probe was processed".into()
 	}
 	fn assumptions(&self) -> Vec<String> {
 		vec![
 			"streaming sounds step by the same `sound_rate * playback_rate * dt` expression as static sounds and are compared with static playback by C09; only static sounds are rendered here".into(),
-			"the reverb has no parameter in seconds or hertz and the compressor's attack/release are dt-driven like the tween; they are not measured".into(),
+			"the compressor's attack/release are dt-driven like the tween and are not measured here (C14 measures them per rate)".into(),
 			"a delay's echo in flight at the moment of a rate change is not judged (kira clears the line); echoes are measured in windows without a change".into(),
 		]
 	}
@@ -472,6 +475,13 @@ fn grid_case(t: Tier, scene: usize, r1: u32, ctx: &mut Ctx) {
 						2 => scene_start(&p, true, &mut fails),
 						3 => scene_tween(&p, &mut fails),
 						4 => scene_delay(&p, a, b, false, &mut fails),
+						8 => {
+							if p.k != NONE && p.k > 1 {
+								Ok((false, 0))
+							} else {
+								scene_reverb(&p, &mut fails)
+							}
+						}
 						7 => {
 							if p.k == NONE || p.k > 2 {
 								Ok((false, 0))
@@ -794,6 +804,48 @@ fn scene_delay(p: &Plan, us: u64, placement: usize, roundtrip: bool, fails: &mut
 	Ok((seen, hash64(&oh)))
 }
 
+/// Freeverb's delay lines are tuned in frames at 44.1 kHz, i.e. in seconds: the first reflection (comb 1116 frames) and the
+/// first reflection of the right-channel bank (1116 + 23 frames) arrive after the same number of seconds at every device rate.
+/// Width 0 mixes both banks into the left channel, where the tap sees them.
+fn scene_reverb(p: &Plan, fails: &mut Vec<(String, String)>) -> SceneObs {
+	let ncb = 18;
+	let fx = kira::effect::reverb::ReverbBuilder::new().feedback(0.5).damping(0.0).stereo_width(0.0).mix(Mix::WET).build().0;
+	let mut pl = place(p, 1, ncb, fx)?;
+	warm(&mut pl.w)?;
+	let f = pl.fire.clone();
+	let starts = drive(&mut pl.w, p, ncb, &mut |_w, j| {
+		if j == 2 {
+			fire(&f, 0.5);
+		}
+	})?;
+	let rec = pl.w.rec();
+	tap_verdict(&pl.w, p, fails);
+	let rate = if p.k == NONE { p.r1 } else { p.r2 };
+	let (from, to) = (starts[2], starts[ncb]);
+	let peak = rec.v[from..to].iter().fold(0.0f32, |m, x| m.max(x.abs()));
+	if peak < 1e-6 {
+		fails.push(("reverb: no reflection heard within 40 ms".into(), format!("device rate {}", rate)));
+		return Ok((false, 0));
+	}
+	// (fully wet: nothing but reflections is heard; the first two non-silent frames are the first reflections of the two banks)
+	let spikes: Vec<usize> = (from..to).filter(|i| rec.v[*i].abs() > 1e-3 * peak).take(2).collect();
+	if spikes.len() < 2 {
+		fails.push(("reverb: fewer than two early reflections".into(), format!("device rate {}; loud frames {:?}", rate, spikes)));
+		return Ok((false, 0));
+	}
+	let t1 = rec.t[spikes[0]] - rec.t[from];
+	let t2 = rec.t[spikes[1]] - rec.t[spikes[0]];
+	let tol = 1.5 / rate as f64;
+	let feat = if p.k == NONE { "constant rate" } else { "after a rate change" };
+	if (t1 - 1116.0 / 44100.0).abs() > tol {
+		fails.push((format!("reverb: the first reflection does not arrive after 1116/44100 s :: {}", feat), format!("{:.6} s at {} Hz ({:.1} frames), expected {:.6} s", t1, rate, t1 * rate as f64, 1116.0 / 44100.0)));
+	}
+	if (t2 - 23.0 / 44100.0).abs() > tol {
+		fails.push((format!("reverb: the right-channel bank does not trail the left one by 23/44100 s :: {}", feat), format!("{:.6} s at {} Hz ({:.1} frames), expected {:.6} s", t2, rate, t2 * rate as f64, 23.0 / 44100.0)));
+	}
+	Ok((true, hash64(&(q(t1, 0.5 / rate as f64), q(t2, 0.5 / rate as f64)))))
+}
+
 /// |H(1 kHz)| / |H(0)| of the effect, from the impulse response in a window, by direct DFT
 fn corner_ratios(p: &Plan, eq: bool) -> Result<(Vec<(f64, u32, bool)>, World), String> {
 	let ncb = NCB_FX;
@@ -855,8 +907,8 @@ struct TrackRec {
 }
 struct WB {
 	w: World,
-	parent: TrackHandle,
-	sp_parent: SpatialTrackHandle,
+	parent: Option<TrackHandle>,
+	sp_parent: Option<SpatialTrackHandle>,
 	listener: ListenerHandle,
 	keep: Vec<Box<dyn Any>>,
 	tracks: Vec<TrackRec>,
@@ -878,10 +930,19 @@ fn wb_new(rate: u32, ibs: usize, log_cap: usize) -> Result<WB, String> {
 	let sp_parent = w.m.add_spatial_sub_track(listener.id(), front(), sp_builder().sub_track_capacity(8)).map_err(lim)?;
 	w.cb(4)?;
 	w.cb(4)?;
-	Ok(WB { w, parent, sp_parent, listener, keep: vec![], tracks: vec![] })
+	Ok(WB { w, parent: Some(parent), sp_parent: Some(sp_parent), listener, keep: vec![], tracks: vec![] })
 }
 impl WB {
 	fn add(&mut self, kind: L) -> Result<(), String> {
+		if kind == L::DropParents {
+			self.parent = None;
+			self.sp_parent = None;
+			return Ok(());
+		}
+		// a nested track cannot be created once its parent's handle is gone
+		if matches!(kind, L::Nested | L::NestedSp) && self.parent.is_none() || matches!(kind, L::SpNested | L::SpNestedSp) && self.sp_parent.is_none() {
+			return Ok(());
+		}
 		let fx = FxState::new(&self.w.truth);
 		let fb = FxState::new(&self.w.truth);
 		let f = Arc::new(AtomicU32::new(0));
@@ -897,12 +958,12 @@ impl WB {
 				self.keep.push(Box::new(t));
 			}
 			L::Nested => {
-				let mut t = self.parent.add_sub_track(tb()).map_err(lim)?;
+				let mut t = self.parent.as_mut().unwrap().add_sub_track(tb()).map_err(lim)?;
 				t.play(src).map_err(|_| "play".to_string())?;
 				self.keep.push(Box::new(t));
 			}
 			L::SpNested => {
-				let mut t = self.sp_parent.add_sub_track(tb()).map_err(lim)?;
+				let mut t = self.sp_parent.as_mut().unwrap().add_sub_track(tb()).map_err(lim)?;
 				t.play(src).map_err(|_| "play".to_string())?;
 				self.keep.push(Box::new(t));
 			}
@@ -912,12 +973,12 @@ impl WB {
 				self.keep.push(Box::new(t));
 			}
 			L::NestedSp => {
-				let mut t = self.parent.add_spatial_sub_track(lid, front(), sb()).map_err(lim)?;
+				let mut t = self.parent.as_mut().unwrap().add_spatial_sub_track(lid, front(), sb()).map_err(lim)?;
 				t.play(src).map_err(|_| "play".to_string())?;
 				self.keep.push(Box::new(t));
 			}
 			L::SpNestedSp => {
-				let mut t = self.sp_parent.add_spatial_sub_track(lid, front(), sb()).map_err(lim)?;
+				let mut t = self.sp_parent.as_mut().unwrap().add_spatial_sub_track(lid, front(), sb()).map_err(lim)?;
 				t.play(src).map_err(|_| "play".to_string())?;
 				self.keep.push(Box::new(t));
 			}
@@ -928,7 +989,7 @@ impl WB {
 				self.keep.push(Box::new(t));
 				self.keep.push(Box::new(s));
 			}
-			L::Cb | L::Change => unreachable!(),
+			L::Cb | L::Change | L::DropParents => unreachable!(),
 		}
 		self.tracks.push(TrackRec { kind, fx, fb, fire: f, adopted: false, told: self.w.rate, created_at: self.w.rate, pending_at_change: false, changes_adopted: 0 });
 		Ok(())
@@ -963,6 +1024,7 @@ fn hist_text(letters: &[L], seq: &[u32], ibs: usize) -> String {
 				s.push_str(&format!("on_change_sample_rate({}); ", seq[pos]));
 			}
 			L::Cb => s.push_str(&format!("callback({} frames); ", B_CB)),
+			L::DropParents => s.push_str("drop the handles of the two parent tracks; "),
 			_ => s.push_str(&format!("{}(probe effect + {} us delay); ", l.name(), B_DELAY_US)),
 		}
 	}
